@@ -326,14 +326,15 @@ def run(tier, seed, only=None):
     timeout_ms = 120000 if tier == 'quick' else 600000
     table = witness.load_table()
 
-    def go():
-        run_scenario(ctx, report, 'three-functions', spec_for(3), timeout_ms, table)
-        run_scenario(ctx, report, 'one-function', spec_for(1), timeout_ms, table)
-        run_scenario(ctx, report, 'edited/insert-at-front', spec_for(2), timeout_ms, table, edit=edit_insert)
-        if tier != 'quick':
-            run_scenario(ctx, report, 'four-functions', spec_for(4), timeout_ms, table)
-    engine.run_in_big_stack(go)
-    report.bounds = {'functions': '1, 2 (edited) and 3 local functions (+1 import), with if/else, else-less if, block, loop, nop', 'sizes': 'every encoded length symbolic: flen(function, #instructions) in [1, 2^32), strictly increasing; module prefix in [8, 2^32); hence every LEB128-length boundary (127/128, 16383/16384, ...) of every entry and of the function count is inside the quantified space',
+    from obligations import gen
+    gl = gen.generated(tier, seed, n_quick=2, n_thorough=18)
+    items = [('three-functions', spec_for(3), timeout_ms, table, None), ('one-function', spec_for(1), timeout_ms, table, None), ('edited/insert-at-front', spec_for(2), timeout_ms, table, edit_insert)]
+    if tier != 'quick':
+        items.append(('four-functions', spec_for(4), timeout_ms, table, None))
+    items += [(name, sp, timeout_ms, table, None) for name, sp in gl]
+    items = [i for i in items if not only or i[0] in only]
+    pc.run_parallel(ctx, report, run_scenario, items)
+    report.bounds = {'generated': gen.bounds_text(tier, len(gl)), 'functions': '1, 2 (edited) and 3 local functions (+1 import), with if/else, else-less if, block, loop, nop', 'sizes': 'every encoded length symbolic: flen(function, #instructions) in [1, 2^32), strictly increasing; module prefix in [8, 2^32); hence every LEB128-length boundary (127/128, 16383/16384, ...) of every entry and of the function count is inside the quantified space',
                      'LEB128': 'exact definition conjoined to every layout equality'}
     report.assumptions = ['layout contract of wasm-encoder 0.214.0: Function::encode = LEB(len) ++ body; CodeSection::raw appends LEB(len) ++ bytes; Module::section = id, LEB(size), payload; code payload = LEB(count) ++ entries',
                           'tolerated: the end of an else-less if is paired with the inserted empty else', 'GC variant: covered structurally by C06 (the map is computed by the same code after deletion)']
